@@ -40,6 +40,20 @@ read lock. -/
 theorem protected_fields_locked : ∀ f ∈ lockTable, rowOk lockTable f = true := by
   decide +kernel
 
+/-- does running `f` acquire the registry mutex, itself or through a callee? -/
+def acquires (tbl : List FnFacts) : Nat → FnFacts → Bool
+  | 0, f => f.lock != .none
+  | fuel + 1, f =>
+    f.lock != .none || (tbl.filter (fun c => f.calls.contains c.short)).any (fun c => acquires tbl fuel c)
+
+/-- **No nested acquisition**: a function that holds the registry mutex never calls — directly or
+through other functions — one that acquires it again. With Go's writer-preferring `RWMutex` a nested
+read lock deadlocks as soon as a writer arrives in between (the defect C13 had), and a nested write
+lock deadlocks at once. -/
+theorem no_nested_acquire : ∀ f ∈ lockTable, f.lock != .none →
+    (lockTable.filter (fun c => f.calls.contains c.short)).all (fun c => !acquires lockTable 3 c) = true := by
+  decide +kernel
+
 /-- the table is not empty and contains the functions the property is about (non-vacuity) -/
 theorem table_covers : ∀ n ∈ ["track", "register", "markActive", "removeRegistration", "getRegistrations",
     "getExpiredRegistrations", "registrationExists"], lockTable.any (fun f => f.short == n) = true := by
